@@ -236,7 +236,7 @@ def run(ctx):
         cb = F.trait_impl_fn("<ctap1::ControlByte as core::convert::TryFrom<u8>>", "try_from")
         if ctx.oblige("C08|control-byte|anchor", cb is not None, "anchor missing: TryFrom<u8> for ControlByte", cfg=cfg):
             try:
-                _, rows = T.conversion_table(cb, F)
+                _, rows = T.byte_table(cb, F)
                 acc = {b for b in range(256) if (T.first_match(rows, b) or {}).get("kind") == "ok"}
                 rej = {T.result_value((T.first_match(rows, b) or {}).get("res", {}), F)[1] for b in range(256) if b not in acc}
                 ctx.oblige("C08|control-byte|table", acc == {3, 7, 8} and rej == {STATUS + "IncorrectDataParameter"}, "control bytes accepted: %s, rejection: %s" % (sorted(acc), rej), cfg=cfg, where=cb["sp"])
